@@ -1,7 +1,7 @@
 (* Properties_C09.v — RingBuffer never destroys, duplicates or abandons an element wrongly.
    Only statements, each closed by [exact <lemma of RingProofs>], and Print Assumptions. *)
 From Coq Require Import List ZArith Bool Lia Permutation.
-From Tulz Require Import Common RingModel RingInv RingProofs.
+From Tulz Require Import Common RingModel RingInv RingProofs RingAliasProofs.
 Import ListNotations.
 Local Open Scope Z_scope.
 
@@ -15,6 +15,14 @@ Theorem C09_step_lifetimes : forall ow ops,
   Forall2 step_lifetimes_ok (ring_trace fixed_variant ow env0 ops) (deque_trace ow denv0 ops).
 Proof. exact ring_step_lifetimes. Qed.
 Print Assumptions C09_step_lifetimes.
+
+(* the same for histories with pushes whose argument refers to an element of the same buffer (see Properties_C04,
+   C04_alias_histories): their trace is the trace of a history of ordinary operations *)
+Theorem C09_alias_histories : forall ow ops,
+  Forall2 step_lifetimes_ok (ring_trace_d fixed_variant ow env0 ops)
+                            (deque_trace ow denv0 (desugar_all fixed_variant ow env0 ops)).
+Proof. exact alias_step_lifetimes. Qed.
+Print Assumptions C09_alias_histories.
 
 (* Conservation over every history: the elements ever constructed are exactly those destroyed
    or assigned over, those moved out to the caller by pop, and those still held by a live
